@@ -92,7 +92,13 @@ def data_session(col, binpath, vmon, rng, tag, scratch):
     lines = traffic(rng, n, lat, lon)
     limit = rng.random() < 0.2
     sim = feedsim(vmon, lines, lat, lon, scratch, limit)
-    plan = [("send", b"".join(lines)), ("mark", "feed_done"), ("sleep", 90)]
+    # a second batch, released after the view controls: updated positions of known aircraft + new aircraft
+    lines2 = traffic(rng, rng.choice([1, 2, 5]), lat, lon)
+    for l in lines[: len(lines) // 3]:
+        lines2.append(l)
+    rng.shuffle(lines2)
+    sim2 = feedsim(vmon, lines + lines2, lat, lon, scratch, limit)
+    plan = [("send", b"".join(lines)), ("mark", "feed_done"), ("wait_for", "batch2"), ("send", b"".join(lines2)), ("mark", "feed2_done"), ("sleep", 90)]
     opts = ["--filter-time", "100000"] + (["--limit-parsing"] if limit else [])
     sess = session.RadarSession(binpath, plan, lat=lat, lon=lon, opts=opts, rows=60, cols=200, scratch=scratch)
     inp = {"receiver": [lat, lon], "options": opts, "lines": [l.decode() for l in lines], "tag": tag}
@@ -157,6 +163,29 @@ def data_session(col, binpath, vmon, rng, tag, scratch):
             raise Inconclusive("Airplanes table not on screen after view controls")
         if ok:
             rows_equal(col, rows2, sim, "", dict(inp, view_controls=seq), "after_view_controls")
+        # reset: the view is centred on the receiver again
+        sess.key("F1")
+        sess.p.pump(0.1)
+        sess.key("Enter")
+        sess.settle(0.5)
+        title = next((l for l in sess.p.screen.text()[:3] if "rsadsb/radar" in l), "")
+        m = re.search(r"\((-?\d+\.\d+),(-?\d+\.\d+)\)\s*(\(CUSTOM\))?", title)
+        col.count("reset_title_checks")
+        if not m:
+            col.inconc("title bar not found after reset")
+        elif m.group(3) or abs(float(m.group(1)) - lat) > 0.0006 or abs(float(m.group(2)) - lon) > 0.0006:
+            col.add("C18", "C18|reset_does_not_return_to_receiver", f"after view controls {seq[-8:]} and reset the title shows {m.group(0)!r}; the receiver is at ({lat:.3f},{lon:.3f})", dict(inp, view_controls=seq))
+        # data decoded after the view controls is still computed from the receiver's position
+        sess.srv.release("batch2")
+        end = time.monotonic() + 40
+        while time.monotonic() < end and not sess.srv.marked("feed2_done"):
+            sess.p.pump(0.1)
+        rows3 = wait_rows(sess, sim2["len"])
+        col.count("rows_compared", len(sim2["rows"]))
+        if rows3 is None:
+            raise Inconclusive("Airplanes table not on screen after the second batch")
+        if ok:
+            rows_equal(col, rows3, sim2, "", dict(inp, view_controls=seq, lines2=[l.decode() for l in lines2]), "data_decoded_after_view_controls")
     finally:
         sess.close()
 
@@ -210,11 +239,12 @@ def stats_expiry_session(col, binpath, rng, tag, scratch):
 
 def map_session(col, binpath, rng, tag, scratch):
     lat, lon = rng.choice([(52.0, 4.0), (10.0, -60.0), (-40.0, 170.0), (60.0, 25.0), (0.0, 0.0)])
-    d = rng.choice([40.0, 50.0, 60.0])
+    d = rng.choice([25.0, 30.0, 35.0])
     lines = []
     truth = {}
+    MULT = {"N": (1.0, 2.0), "E": (1.0, 2.0), "S": (1.5, 3.0), "W": (1.5, 3.0)}
     for i, (name, brg) in enumerate([("N", 0), ("E", 90), ("S", 180), ("W", 270)]):
-        for j, mult in enumerate([1, 2]):
+        for j, mult in enumerate(MULT[name]):
             addr = 0x700000 + i * 16 + j
             la, lo = enc.destination(lat, lon, brg, d * mult)
             truth[addr] = (name, mult)
@@ -272,16 +302,19 @@ def map_session(col, binpath, rng, tag, scratch):
         detail = {k: sorted(v) for k, v in groups.items()}
         inp2 = dict(inp, centre=[cr, cc], offsets=detail, stray=stray[:8])
         if stray or any(len(v) != 2 for v in groups.values()):
-            col.add("C18", "C18|map_direction", f"aircraft placed due N/E/S/W of the receiver at {d} and {2 * d} km are drawn at offsets {detail} (rows/columns from the centre), stray dots {stray[:6]}", inp2)
+            col.add("C18", "C18|map_direction", f"aircraft placed due N/E/S/W of the receiver (N,E at {d} and {2 * d} km; S,W at {1.5 * d} and {3 * d} km) are drawn at offsets {detail} (rows/columns from the centre), stray dots {stray[:6]}", inp2)
             return
         for k, v in groups.items():
             v.sort()
             if abs(v[1] - 2 * v[0]) > 2:
-                col.add("C18", f"C18|map_not_proportional|{k}", f"{k}: offsets {v} cells for distances {d} and {2 * d} km", inp2)
-        if abs(groups["E"][0] - groups["W"][0]) > 1 or abs(groups["E"][1] - groups["W"][1]) > 1:
-            col.add("C18", "C18|map_east_west_asymmetric", f"E {groups['E']} vs W {groups['W']}", inp2)
-        if abs(groups["N"][0] - groups["S"][0]) > 1 or abs(groups["N"][1] - groups["S"][1]) > 2:
-            col.add("C18", "C18|map_north_south_asymmetric", f"N {groups['N']} vs S {groups['S']}", inp2)
+                col.add("C18", f"C18|map_not_proportional|{k}", f"{k}: offsets {v} cells for distances {MULT[k][0] * d} and {MULT[k][1] * d} km", inp2)
+        # the aircraft to the south / west are 1.5 times as far away as those to the north / east:
+        # a mirrored axis or a direction-dependent scale shows as a wrong ratio between opposite sides
+        for a_, b_ in (("E", "W"), ("N", "S")):
+            for j in (0, 1):
+                want = groups[a_][j] * 1.5
+                if abs(groups[b_][j] - want) > 1.5 + 0.06 * want:
+                    col.add("C18", f"C18|map_opposite_sides_inconsistent|{a_}{b_}", f"{a_} at {MULT[a_][j] * d} km is {groups[a_][j]} cells from the centre, {b_} at {MULT[b_][j] * d} km is {groups[b_][j]} cells (expected about {want:.1f})", inp2)
         # zoom out one step: offsets shrink, directions stay; reset: offsets return
         sess.key("-")
         sess.settle(0.5)
